@@ -50,6 +50,7 @@ type Contract struct {
 	Trusted      bool
 	Pure         bool
 	Requires     []Clause
+	Typing       []Clause // typing facts (allocated(...)): assumed at entry, not asserted by callers
 	Ensures      []Clause
 	Assigns      []Clause
 	AssignsGiven bool
@@ -322,6 +323,7 @@ var clauseKeywords = map[string]bool{
 	"onlysafety": true, "unfold": true, "assert": true, "cases": true, "partial": true,
 	"lemma": true, "induction": true, "uses": true, "hint": true, "reads": true, "guard": true,
 	"guarded": true, "unshared": true, "fnparam": true, "monitor": true, "stepinv": true,
+	"typing": true,
 }
 
 var fnparamRe = regexp.MustCompile(`^([A-Za-z_][A-Za-z0-9_]*)\(([^)]*)\)\s*:\s*(.*)$`)
@@ -569,6 +571,18 @@ func (e *Engine) parseContracts(body, pkgPath, file string, line0 int) error {
 					cl.Label = fmt.Sprint(len(cur.Requires) + 1)
 				}
 				cur.Requires = append(cur.Requires, cl)
+			case "typing":
+				// typing forall ... :: guard ==> allocated(e) && ...: a fact true of every Go state
+				// (a pointer stored in reachable memory lies below the allocation frontier);
+				// assumed at entry, never asserted at call sites, listed as an assumption
+				cl, err := mkClause(rc)
+				if err != nil {
+					return err
+				}
+				if !isTypingFact(cl.Expr) {
+					return fmt.Errorf("%s:%d: a typing clause must have the shape [forall ... ::] [guard ==>] allocated(e) [&& allocated(e')...]", file, rc.line)
+				}
+				cur.Typing = append(cur.Typing, cl)
 			case "ensures":
 				cl, err := mkClause(rc)
 				if err != nil {
@@ -664,6 +678,29 @@ func (e *Engine) parseContracts(body, pkgPath, file string, line0 int) error {
 		}
 	}
 	return nil
+}
+
+// isTypingFact: [forall ... ::] [guard ==>] allocated(e) [&& ...]
+func isTypingFact(e ast.Expr) bool {
+	e = unparen(e)
+	if ce, ok := e.(*ast.CallExpr); ok {
+		if id, ok := ce.Fun.(*ast.Ident); ok && id.Name == "forall" && len(ce.Args) >= 1 {
+			return isTypingFact(ce.Args[len(ce.Args)-1])
+		}
+		if id, ok := ce.Fun.(*ast.Ident); ok && id.Name == "allocated" {
+			return true
+		}
+		return false
+	}
+	if be, ok := e.(*ast.BinaryExpr); ok {
+		if be.Op == tokImplies {
+			return isTypingFact(be.Y)
+		}
+		if be.Op == token.LAND {
+			return isTypingFact(be.X) && isTypingFact(be.Y)
+		}
+	}
+	return false
 }
 
 func splitTopLevel(s string, sep rune) []string {
